@@ -26,7 +26,7 @@ CARGO_ARGS = {
           "ruma-client-api/client,ruma-client-api/server,ruma-federation-api/client,ruma-federation-api/server,"
           "ruma-appservice-api/client,ruma-appservice-api/server,ruma-identity-service-api/client,"
           "ruma-identity-service-api/server,ruma-push-gateway-api/client,ruma-push-gateway-api/server,"
-          "ruma-html/matrix,ruma-signatures/ring-compat"],
+          "ruma-html/matrix,ruma-signatures/ring-compat,ruma-common/rand"],
 }
 
 
@@ -51,6 +51,8 @@ def tree_hash():
                 h.update(b"\0")
                 h.update(hashlib.sha256(data).digest())
                 n += 1
+    # the build configurations (cargo arguments / feature sets) are part of the key
+    h.update(json.dumps(CARGO_ARGS, sort_keys=True).encode())
     # the driver itself is part of the key
     for f in ("src/main.rs",):
         with open(os.path.join(DRIVER_DIR, f), "rb") as fh:
